@@ -712,6 +712,14 @@ static double aom_highbd_ssim2(const uint8_t *img1, int stride_img1,
   return ssim_total;
 }
 
+// releases the copies of the source picture saved by the temporal filter for the PSNR / SSIM report
+static void free_temporal_filtering_buffer(PictureParentControlSet *ppcs_ptr) {
+    for (int c = 0; c < 3; c++) {
+        EB_FREE_ARRAY(ppcs_ptr->save_enhanced_picture_ptr[c]);
+        EB_FREE_ARRAY(ppcs_ptr->save_enhanced_picture_bit_inc_ptr[c]);
+    }
+}
+
 void ssim_calculations(PictureControlSet *pcs_ptr, SequenceControlSet *scs_ptr, EbBool free_memory) {
     EbBool is_16bit = (scs_ptr->static_config.encoder_bit_depth > EB_8BIT);
 
@@ -772,9 +780,7 @@ void ssim_calculations(PictureControlSet *pcs_ptr, SequenceControlSet *scs_ptr, 
         pcs_ptr->parent_pcs_ptr->cr_ssim = cr_ssim;
 
         if (free_memory && pcs_ptr->parent_pcs_ptr->temporal_filtering_on == EB_TRUE) {
-            EB_FREE_ARRAY(buffer_y);
-            EB_FREE_ARRAY(buffer_cb);
-            EB_FREE_ARRAY(buffer_cr);
+            free_temporal_filtering_buffer(pcs_ptr->parent_pcs_ptr);
         }
     }
     else {
@@ -952,12 +958,7 @@ void ssim_calculations(PictureControlSet *pcs_ptr, SequenceControlSet *scs_ptr, 
             pcs_ptr->parent_pcs_ptr->cr_ssim = cr_ssim;
 
             if (free_memory && pcs_ptr->parent_pcs_ptr->temporal_filtering_on == EB_TRUE) {
-                EB_FREE_ARRAY(buffer_y);
-                EB_FREE_ARRAY(buffer_cb);
-                EB_FREE_ARRAY(buffer_cr);
-                EB_FREE_ARRAY(buffer_bit_inc_y);
-                EB_FREE_ARRAY(buffer_bit_inc_cb);
-                EB_FREE_ARRAY(buffer_bit_inc_cr);
+                free_temporal_filtering_buffer(pcs_ptr->parent_pcs_ptr);
             }
         }
     }
@@ -1077,9 +1078,7 @@ void psnr_calculations(PictureControlSet *pcs_ptr, SequenceControlSet *scs_ptr, 
         pcs_ptr->parent_pcs_ptr->cr_sse   = (uint32_t)sse_total[2];
 
         if(free_memory && pcs_ptr->parent_pcs_ptr->temporal_filtering_on == EB_TRUE) {
-            EB_FREE_ARRAY(buffer_y);
-            EB_FREE_ARRAY(buffer_cb);
-            EB_FREE_ARRAY(buffer_cr);
+            free_temporal_filtering_buffer(pcs_ptr->parent_pcs_ptr);
         }
     }
     else {
@@ -1435,12 +1434,7 @@ void psnr_calculations(PictureControlSet *pcs_ptr, SequenceControlSet *scs_ptr, 
             sse_total[2] = residual_distortion;
 
             if (free_memory && pcs_ptr->parent_pcs_ptr->temporal_filtering_on == EB_TRUE) {
-                EB_FREE_ARRAY(buffer_y);
-                EB_FREE_ARRAY(buffer_cb);
-                EB_FREE_ARRAY(buffer_cr);
-                EB_FREE_ARRAY(buffer_bit_inc_y);
-                EB_FREE_ARRAY(buffer_bit_inc_cb);
-                EB_FREE_ARRAY(buffer_bit_inc_cr);
+                free_temporal_filtering_buffer(pcs_ptr->parent_pcs_ptr);
            }
         }
 
